@@ -191,6 +191,17 @@ pub fn alphabet(n: usize, c: &AlphaCfg) -> Vec<Dev> {
             }
         }
     }
+    if c.kinds && n >= 2 {
+        // variants named like the associated types of the generated impls (`Self::Err` / `Self::Error` would be ambiguous)
+        devs.push(dev("v0.ident=Err + v1.ident=Error (names of the impls' associated types)", &["ident0", "ident1", "ctx"], |s| {
+            if s.variants.len() < 2 {
+                return false;
+            }
+            s.variants[0].ident = "Err".into();
+            s.variants[1].ident = "Error".into();
+            true
+        }));
+    }
     if c.aci && n >= 2 {
         // non-letters that differ only in bit 0x20 (`^`/`~`, `@`/`` ` ``, `[`/`{{`) are NOT case twins: a case-insensitive variant
         // spelled with one set, a later variant spelled with the other
